@@ -23,6 +23,13 @@ from tools import vlib, units, gotoexec as G, e3lib as E
 import c14_exact as X14
 PROG = None
 F = lambda q: G.FV(Fr(q), Fr(q))
+# which C++ operation each wrapper stands for (from the documentation of the C header; this is the specification side)
+CORRESPONDS = {"splinetable_init": "construct", "readsplinefitstable": "construct_from", "writesplinefitstable": "write_fits", "readsplinefitstable_mem": "read_fits_mem", "writesplinefitstable_mem": "write_fits_mem",
+               "splinetable_get_key": "get_aux_value", "splinetable_read_key": "read_key", "splinetable_write_key": "write_key", "splinetable_ndim": "get_ndim", "splinetable_order": "get_order",
+               "splinetable_nknots": "get_nknots", "splinetable_knots": "get_knots", "splinetable_knot": "get_knot", "splinetable_lower_extent": "lower_extent", "splinetable_upper_extent": "upper_extent",
+               "splinetable_period": "get_period", "splinetable_ncoeffs": "get_ncoeffs", "splinetable_total_ncoeffs": "get_ncoeffs", "splinetable_stride": "get_stride", "splinetable_coefficients": "get_coefficients",
+               "tablesearchcenters": "searchcenters", "ndsplineeval": "ndsplineeval", "ndsplineeval_gradient": "ndsplineeval_gradient", "ndsplineeval_deriv": "ndsplineeval_deriv",
+               "splinetable_convolve": "convolve", "splinetable_permute": "permuteDimensions"}
 BOOL_OPS = ("read_key",)          # operations whose bool result reports failure (write_key returns false for a successful overwrite: not a failure signal)
 
 def build():
@@ -86,9 +93,17 @@ def run_wrapper(args):
                     H_wr(a[1], G.Ptr(it_.new_obj("membuf", 1), 0)); H_wr(a[2], 8640); return None
                 if rets[m] == "bool": return not (variant.get("false") == m)
                 if m == "get_ndim": return 3
-                return SCRIPT.get(rets[m])
+                return scripted(m)
             return h
         def H_wr(p, v): p.obj.cells[p.off] = v
+        PTRS = {}
+        def scripted(m):
+            """a value that identifies the operation which produced it"""
+            k = sum(ord(c) for c in m) % 97 + 2; rt = rets[m]
+            if rt == "double": return F(Fr(k, 4))
+            if rt.endswith("*"): return PTRS.setdefault(m, G.Ptr(it.array("result_of_" + m, [0]), 0))
+            if rt == "int": return 1
+            return k
         for m in rets: it.hooks["vp_m_" + m] = mk(m)
         def h_copy(it_, a):
             f_, l_, o_ = a; n = l_.off - f_.off; o_.obj.cells[o_.off:o_.off + n] = f_.obj.cells[f_.off:l_.off]
@@ -110,9 +125,12 @@ def run_wrapper(args):
         else:
             if threw: ob("O2 a throwing operation yields NULL / no value", (isinstance(ret, G.Ptr) and ret.obj is None) if rt.endswith("*") else True, "returned %r" % (ret,))
             elif main:
-                want = SCRIPT.get(rets[main[-1][0]], None) if main[-1][0] != "get_ndim" else 3
+                want = scripted(main[-1][0]) if main[-1][0] != "get_ndim" else 3
                 same = (ret.obj is want.obj and ret.off == want.off) if isinstance(want, G.Ptr) else ((ret.num == want.num) if isinstance(want, G.FV) else ret == want)
                 ob("O3 the operation's value is passed on exactly", same, "returned %r, operation gave %r" % (ret, want))
+        if name in CORRESPONDS:
+            called = [c[0] for c in calls if c[0] != "destroy" and not (c[0] == "get_ndim" and name == "splinetable_permute")]
+            ob("O4 the wrapper calls its corresponding C++ operation (%s) exactly once" % CORRESPONDS[name], called == [CORRESPONDS[name]] or (name == "readsplinefitstable_mem" and called == ["read_fits_mem"]), "operations called: %s" % called)
         # O4: arguments reach the operation unchanged (the object first, then the wrapper's own arguments in order, as far as the operation takes them)
         if main and main[-1][0] not in ("construct", "construct_from", "get_ndim"):
             m, a = main[-1]; bad = []
